@@ -407,6 +407,46 @@ ValidObj(env, s, d, D) ==
                         {Valid(env, addl.s, ObjVal(d, k), D, "addl", NoLim) : k \in extra}
   IN And3({reqOK} \cup propsOK \cup extraOK \cup foldOK)
 
+(* ---------- the environment of a unit ---------- *)
+\* single-document units carry their definitions in defs; multi-document units (C10) add legacy definitions and
+\* further files ([path, name, s, defs, yaml]): every file root and every definition is one named entry
+RECURSIVE FilesEnv(_)
+FilesEnv(fs) == IF fs = <<>> THEN <<>> ELSE <<[k |-> Head(fs).name, s |-> Head(fs).s]>> \o Head(fs).defs \o FilesEnv(Tail(fs))
+UnitEnv(un) == un.defs \o (IF Has(un, "ldefs") THEN un.ldefs ELSE <<>>) \o (IF Has(un, "files") THEN FilesEnv(un.files) ELSE <<>>)
+
+(* ---------- which deviations can matter for a unit (attribution only) ---------- *)
+\* The trace specifications attribute a known-wrong observation to the deviations that explain it by
+\* re-evaluating Valid without each deviation.  A deviation can only change the verdict of a unit whose
+\* schemas mention one of the keywords its switch looks at; restricting the candidates to those keeps the
+\* attribution cost independent of the number of recorded findings.  (The CLASS of an event never depends
+\* on this: it compares the observation with Valid(.., Devs) as a whole.)
+RECURSIVE KeysOf(_)
+KeysOf(s) ==
+  DOMAIN s
+  \cup (IF Has(s, "properties") THEN UNION {KeysOf(s.properties[i].s) : i \in DOMAIN s.properties} ELSE {})
+  \cup (IF Has(s, "items") THEN KeysOf(s.items) ELSE {})
+  \cup (IF Has(s, "additionalProperties") /\ s.additionalProperties.k = "s" THEN KeysOf(s.additionalProperties.s) ELSE {})
+  \cup (IF Has(s, "allOf") THEN UNION {KeysOf(s.allOf[i]) : i \in DOMAIN s.allOf} ELSE {})
+  \cup (IF Has(s, "anyOf") THEN UNION {KeysOf(s.anyOf[i]) : i \in DOMAIN s.anyOf} ELSE {})
+EnvKeys(env) == UNION {KeysOf(env[i].s) : i \in DOMAIN env}
+DevNeeds(x) ==
+  CASE x = "LengthInBytes" -> {"minLength", "maxLength"}
+    [] x = "ZeroMaxIgnored" -> {"maxLength", "maxItems"}
+    [] x \in {"NestedArrayOuterLimits", "NamedArrayUnvalidated"} -> {"minItems", "maxItems"}
+    [] x \in {"DeclaredArrayElemUnvalidated", "ArrayItemConstraintsIgnored"} -> {"items"}
+    [] x = "RequiredUndeclaredIgnored" -> {"required"}
+    [] x \in {"AddlIntTruncates", "AddlValuesTypedOnly", "AddlKeyEqualsFieldNameDropped", "AddlEmptyKeyDropped",
+              "UntypedAddlNotCollected", "AddlMapDefaultDropped", "AddlNullPanics"} -> {"additionalProperties"}
+    [] x \in {"Float64Bounds", "IntBoundTruncated"} -> {"minimum", "maximum", "exclusiveMinimum", "exclusiveMaximum"}
+    [] x \in {"UntypedEnumDefUnvalidated", "NullableDefUnvalidated", "SameNameDefsCollapse"} -> {"ref"}
+    [] x \in {"EnumNullDefault", "DefaultOnNullableScalar", "DefaultOnFormat", "DefaultOnWrappedEnum", "DefaultOnNestedArray",
+              "DefaultOnObjectWithOptionalFields"} -> {"default"}
+    [] x = "AllOfFirstWins" -> {"allOf"}
+    [] x \in {"AnyOfMergedDecode", "AnyOfRefBranchWithoutValidators", "AnyOfUntypedBranchNoCompile"} -> {"anyOf"}
+    [] x = "YamlIntInMixedEnum" -> {"enum"}
+    [] OTHER -> {"type", "ref", "enum", "allOf", "anyOf"}          \* anything else: always a candidate
+CandDevs(keys, D) == {x \in D : DevNeeds(x) \cap keys # {}}
+
 (* ---------- decoded values (C02, C08, C09) ---------- *)
 \* "Empty" values are the ones Go's omitempty drops when marshalling
 NonEmpty(d) == ~( d.t = "null" \/ (d.t = "bool" /\ ~d.b) \/ (d.t = "num" /\ d.h = 0)
